@@ -21,9 +21,13 @@ import (
 	"github.com/containerd/containerd/v2/core/images"
 	"github.com/containerd/containerd/v2/core/images/converter"
 	"github.com/containerd/platforms"
+	"github.com/containerd/stargz-snapshotter/cache"
 	"github.com/containerd/stargz-snapshotter/estargz"
 	esgzexternaltoc "github.com/containerd/stargz-snapshotter/estargz/externaltoc"
 	esgzzstd "github.com/containerd/stargz-snapshotter/estargz/zstdchunked"
+	fsreader "github.com/containerd/stargz-snapshotter/fs/reader"
+	"github.com/containerd/stargz-snapshotter/metadata"
+	memorymeta "github.com/containerd/stargz-snapshotter/metadata/memory"
 	estargzconvert "github.com/containerd/stargz-snapshotter/nativeconverter/estargz"
 	externaltocconvert "github.com/containerd/stargz-snapshotter/nativeconverter/estargz/externaltoc"
 	zstdchunkedconvert "github.com/containerd/stargz-snapshotter/nativeconverter/zstdchunked"
@@ -31,6 +35,7 @@ import (
 	digest "github.com/opencontainers/go-digest"
 	ocispec "github.com/opencontainers/image-spec/specs-go/v1"
 
+	"verifharness/internal/gen"
 	"verifharness/internal/vf"
 )
 
@@ -167,23 +172,37 @@ func perLayerOpts(c caseSpec, img *imageSrc) map[digest.Digest][]estargz.Option 
 	return m
 }
 
+// The repo's constructors are called through function values: a direct call lets the
+// compiler inline them into this package, and the closures they return would then be named
+// "main.newConverter.LayerConvertFunc.layerConvert.func9" in stack traces and race reports,
+// outside the attribution set.
+var (
+	mkEstargz     = estargzconvert.LayerConvertFunc
+	mkEstargzPer  = estargzconvert.LayerConvertWithLayerAndCommonOptsFunc
+	mkZstd        = zstdchunkedconvert.LayerConvertFuncWithCompressionLevel
+	mkZstdPer     = zstdchunkedconvert.LayerConvertWithLayerOptsFuncWithCompressionLevel
+	mkExtTOC      = externaltocconvert.LayerConvertFunc
+	mkExtTOCPer   = externaltocconvert.LayerConvertWithLayerAndCommonOptsFunc
+	mkExtLossless = externaltocconvert.LayerConvertLossLessFunc
+)
+
 func newConverter(c caseSpec, img *imageSrc) (converter.ConvertFunc, finalizeFunc) {
 	ignored := new([]string)
 	switch c.Kind {
 	case kindEstargz:
-		return estargzconvert.LayerConvertFunc(commonOpts(c, ignored)...), nil
+		return mkEstargz(commonOpts(c, ignored)...), nil
 	case kindEstargzPer:
-		return estargzconvert.LayerConvertWithLayerAndCommonOptsFunc(perLayerOpts(c, img), commonOpts(c, ignored)...), nil
+		return mkEstargzPer(perLayerOpts(c, img), commonOpts(c, ignored)...), nil
 	case kindZstd:
-		return zstdchunkedconvert.LayerConvertFuncWithCompressionLevel(zstd.EncoderLevel(c.Level), commonOpts(c, ignored)...), nil
+		return mkZstd(zstd.EncoderLevel(c.Level), commonOpts(c, ignored)...), nil
 	case kindZstdPer:
-		return zstdchunkedconvert.LayerConvertWithLayerOptsFuncWithCompressionLevel(zstd.EncoderLevel(c.Level), perLayerOpts(c, img)), nil
+		return mkZstdPer(zstd.EncoderLevel(c.Level), perLayerOpts(c, img)), nil
 	case kindExtTOC:
-		return externaltocconvert.LayerConvertFunc(commonOpts(c, ignored), c.Level)
+		return mkExtTOC(commonOpts(c, ignored), c.Level)
 	case kindExtTOCPer:
-		return externaltocconvert.LayerConvertWithLayerAndCommonOptsFunc(perLayerOpts(c, img), commonOpts(c, ignored), c.Level)
+		return mkExtTOCPer(perLayerOpts(c, img), commonOpts(c, ignored), c.Level)
 	case kindLossless:
-		return externaltocconvert.LayerConvertLossLessFunc(externaltocconvert.LayerConvertLossLessConfig{CompressionLevel: c.Level, ChunkSize: c.Chunk, MinChunkSize: c.MinChunk})
+		return mkExtLossless(externaltocconvert.LayerConvertLossLessConfig{CompressionLevel: c.Level, ChunkSize: c.Chunk, MinChunkSize: c.MinChunk})
 	}
 	panic("unknown kind " + c.Kind)
 }
@@ -644,10 +663,8 @@ func checkLayer(r *vf.Run, c caseSpec, img *imageSrc, e *storeEnv, rec *callRec,
 				rp(lname, map[string]any{"annotation": tocAnn, "sha256_of_toc_json": got}))
 		}
 		if hasTOCAnn {
-			if err := repoVerifies(blob, tocAnn, nil); err != nil {
-				r.Violate("annotation:toc-digest-rejected-by-VerifyTOC:"+fam, "estargz.Open+VerifyTOC do not accept the committed blob under the annotated TOC digest: "+errClass(err), rp(lname, map[string]any{"annotation": tocAnn}))
-			} else {
-				r.Count("blobs_accepted_by_Open_VerifyTOC", 1)
+			if err := repoMounts(r, c, src, blob, tocAnn, nil, out.Digest.String()); err != nil {
+				r.Violate("annotation:toc-digest-does-not-mount-and-verify:"+fam, "the snapshotter's readers do not mount and verify the committed blob under the annotated TOC digest: "+errClass(err), rp(lname, map[string]any{"annotation": tocAnn}))
 			}
 		}
 		toc, perr := parseTOC(tocJSON)
@@ -674,28 +691,102 @@ func srcScenario(c caseSpec, j int) string {
 	return s
 }
 
-// repoVerifies: the digest under which the repo's own reader accepts the blob.
-func repoVerifies(blob []byte, tocDigest string, externalTOC []byte) error {
+// repoMounts: "the digest under which the blob mounts and verifies" — the snapshotter's own
+// mount path: metadata/memory.NewReader over the blob (external TOC supplied as the
+// fetcher would), fs/reader.NewReader + VerifiableReader.VerifyTOC(annotated digest), then
+// every marker file is read through the verifying reader (chunk digests are checked on
+// the way) and compared with the generator's content.
+// When the blob was built without WithMinChunkSize the legacy estargz.Reader
+// (estargz.Open + VerifyTOC) must accept it under the same digest as well; with
+// MinChunkSize that legacy verifier rejects any blob ("offset N found twice": entries
+// sharing a gzip member share the offset), which is recorded but is not this property.
+func repoMounts(r *vf.Run, c caseSpec, src *srcLayer, blob []byte, tocDigest string, externalTOC []byte, layerDigest string) error {
 	d, err := digest.Parse(tocDigest)
 	if err != nil {
 		return err
 	}
-	ds := []estargz.Decompressor{new(esgzzstd.Decompressor)}
-	if externalTOC != nil {
-		ds = append(ds, esgzexternaltoc.NewGzipDecompressor(func() ([]byte, error) { return externalTOC, nil }))
-	}
-	var rd *estargz.Reader
 	var verr error
 	panicked, pv, _ := vf.Recover(func() {
-		rd, verr = estargz.Open(io.NewSectionReader(bytes.NewReader(blob), 0, int64(len(blob))), estargz.WithDecompressors(ds...))
-		if verr == nil {
-			_, verr = rd.VerifyTOC(d)
+		ds := []metadata.Decompressor{new(esgzzstd.Decompressor)}
+		if externalTOC != nil {
+			ds = append(ds, esgzexternaltoc.NewGzipDecompressor(func() ([]byte, error) { return externalTOC, nil }))
+		}
+		sr := io.NewSectionReader(bytes.NewReader(blob), 0, int64(len(blob)))
+		mr, err := memorymeta.NewReader(sr, metadata.WithDecompressors(ds...))
+		if err != nil {
+			verr = fmt.Errorf("metadata reader: %w", err)
+			return
+		}
+		defer mr.Close()
+		vr, err := fsreader.NewReader(mr, cache.NewMemoryCache(), digest.Digest(layerDigest))
+		if err != nil {
+			verr = fmt.Errorf("fs reader: %w", err)
+			return
+		}
+		defer vr.Close()
+		rr, err := vr.VerifyTOC(d)
+		if err != nil {
+			verr = fmt.Errorf("VerifyTOC: %w", err)
+			return
+		}
+		dirID, _, err := mr.GetChild(mr.RootID(), markerDir)
+		if err != nil {
+			verr = fmt.Errorf("lookup %s: %w", markerDir, err)
+			return
+		}
+		for k := 0; k < nMarkers; k++ {
+			id, attr, err := mr.GetChild(dirID, fmt.Sprintf("p%d", k))
+			if err != nil {
+				verr = fmt.Errorf("lookup marker: %w", err)
+				return
+			}
+			if attr.Size != src.MarkerSizes[k] {
+				verr = fmt.Errorf("marker file has another size under this TOC")
+				return
+			}
+			f, err := rr.OpenFile(id)
+			if err != nil {
+				verr = fmt.Errorf("open marker: %w", err)
+				return
+			}
+			buf := make([]byte, attr.Size)
+			if n, err := f.ReadAt(buf, 0); int64(n) != attr.Size || (err != nil && err != io.EOF) {
+				verr = fmt.Errorf("verified read of a marker file failed: n=%d err=%v", n, err)
+				return
+			}
+			if at := gen.CheckContent(src.MarkerIDs[k], 0, buf); at >= 0 {
+				verr = fmt.Errorf("verified read of a marker file returned other bytes than the layer holds")
+				return
+			}
+		}
+		r.Count("blobs_mounted_and_read_under_annotated_toc_digest", 1)
+		// legacy reader
+		var lerr error
+		rd, lerr := estargz.Open(io.NewSectionReader(bytes.NewReader(blob), 0, int64(len(blob))), estargz.WithDecompressors(legacyDecompressors(externalTOC)...))
+		if lerr == nil {
+			_, lerr = rd.VerifyTOC(d)
+		}
+		switch {
+		case lerr == nil:
+			r.Count("blobs_accepted_by_estargz_Open_VerifyTOC", 1)
+		case c.MinChunk > 0 && strings.Contains(lerr.Error(), "found twice"):
+			r.Count("blobs_with_minchunksize_rejected_by_legacy_estargz_Verifiers", 1)
+		default:
+			verr = fmt.Errorf("estargz.Open+VerifyTOC: %w", lerr)
 		}
 	})
 	if panicked {
 		return fmt.Errorf("panic: %v", pv)
 	}
 	return verr
+}
+
+func legacyDecompressors(externalTOC []byte) []estargz.Decompressor {
+	ds := []estargz.Decompressor{new(esgzzstd.Decompressor)}
+	if externalTOC != nil {
+		ds = append(ds, esgzexternaltoc.NewGzipDecompressor(func() ([]byte, error) { return externalTOC, nil }))
+	}
+	return ds
 }
 
 // checkTOCAgainstLayer: the TOC describes THIS layer and was built with THIS layer's options.
